@@ -116,6 +116,16 @@ PROPS = {
         "lean_modules": ["Vipnode.Props.C11"],
         "streams": store_streams(150, 1500) + pool_streams(120, 1500, gen="pool-expiry", prefix="expiry"),
     },
+    "C16": {
+        "level_text": "exposed_exactly (a server exposes exactly prefix+lowerFirst(method) for the receiver's exported methods, restricted to the allow-list), unknown_not_found, bad_params_not_run, runs_only_if_well_typed, too_many/too_few/wrong_type_invalid are Lean theorems about the registry and positional-argument model; production_surface re-proves by `decide`, on every run, that the names the *built pool binary* answers (probed over HTTP with every candidate name derived by reflection from the objects behind its services) are exactly the documented API. The model is compared with jsonrpc2.Server on instrumented receivers (invocation counters) and with the running binary over HTTP and WebSocket.",
+        "level_note": "Theorems are about Model/Server.lean; encoding/json's type compatibility is the table `compat` (JSON null decodes into any type). Tie: differential on instrumented receivers with invocation counters; the running binary over HTTP/WebSocket with malformed parameter lists and candidate names. Trusted: reflect, encoding/json.",
+        "lean_modules": ["Vipnode.Props.C16"],
+        "streams": [
+            {"name": "srv", "component": "srv", "cases": {"quick": 300, "thorough": 3000}},
+            {"name": "srvbin-http", "component": "srvbin", "gen": "srvbin", "opts": {"transport": "http"}, "pool_binary": True, "cases": {"quick": 12, "thorough": 80}, "no_shrink": True},
+            {"name": "srvbin-ws", "component": "srvbin", "gen": "srvbin", "opts": {"transport": "ws"}, "pool_binary": True, "cases": {"quick": 12, "thorough": 80}, "no_shrink": True},
+        ],
+    },
     "C12": {
         "level_text": "Contract clauses (unregistered = error, balances follow the wallet, trial migrated exactly once and shared, active-host query contract, statistics = true counts, ledger effect of every operation, well-formedness of every reachable store) are Lean theorems about the executable reference model of the documented store contract, for all states and arguments; both drivers are compared with that model op by op on generated histories, so a driver that deviates from the other deviates from the model.",
         "level_note": "Theorems are about Model/Store.lean; its tie to memory.go/badger.go is differential (sampled). Trusted: badger transaction atomicity, gob round-trip, the harness's clock bracketing.",
